@@ -209,4 +209,40 @@ void h_symbol_step(void)
   if (want == OK) PROP(DS.block_size == wfill && rs_freed == 1 && DS.internal_state == 0, "final block size; the retriever state is released exactly once");
 }
 
+/* ------------------------------------------------------------------------------------------------
+ * h_selector_clamp (production constants): a block may declare up to 32767 selectors; only the first
+ * ceil((MAX_BLOCK_SIZE + 1) / 50) groups can ever be used (that many symbols incl. end-of-block fit a block),
+ * and retrieve() bounds the count it will use.  The bound must not be below that number, otherwise a full
+ * 900000-byte block whose last group holds only the end-of-block symbol is rejected (C06), and it must not
+ * exceed the declared count.  retrieve() is resumed with a complete table and a first group that selects an
+ * unusable table, so it returns at once; the bounded count is then read from the retriever state.
+ */
+void h_selector_clamp(void)
+{
+  LOAD_INPUTS();
+  struct bitstream bs;
+  unsigned ns = IN.alpha, i;
+  ASSUME(ns >= 1 && ns <= MAX_SELECTORS);
+  DS.internal_state = &RS; DS.tt = TT; DS.block_size = 0; DS.bwt_idx = 0;
+  RS.state = S_DELTA_TAG; RS.num_trees = 2; RS.t = 1; RS.num_selectors = ns; RS.selector[0] = 1;
+  RS.alpha_size = 3; RS.j = 3;                     /* last table complete */
+  RS.code_len[0] = 1; RS.code_len[1] = 1; RS.code_len[2] = 1;   /* oversubscribed: the table the first group selects is unusable */
+  RS.mtf[0] = 0; RS.mtf[1] = 1;
+  DATA[0] = 0;
+  bs.live = 0; bs.buff = 0; bs.block = 0; bs.eof = false; bs.data = DATA; bs.limit = DATA + 1;
+  step_mode = 0; seen = 0;
+  int rv = -1;
+#ifdef REPLAY
+  if (!setjmp(cut_jmp))
+#endif
+  rv = retrieve(&DS, &bs);
+  unsigned need = (MAX_BLOCK_SIZE + 1u + GROUP_SIZE - 1u) / GROUP_SIZE;     /* 18001 at production constants */
+  WITNESS("clamp_observed");
+  if (ns > need) WITNESS("surplus_selectors_declared");
+  PROP(rv == ERR_PREFIX, "the first group selects an unusable table: the run ends there");
+  PROP(RS.num_selectors <= ns, "never more groups than declared");
+  PROP(RS.num_selectors >= (ns < need ? ns : need), "every group a full block can need stays usable: the bound on used selectors is at least ceil((MAX_BLOCK_SIZE+1)/50) (C06)");
+  (void)i;
+}
+
 HARNESS_MAIN(REPLAY_ENTRY)
